@@ -233,7 +233,8 @@ func VerifC13_render() {
 		t.AddRowItems("a")
 		t.AddRowItems("c", "d")
 	}
-	// owners for row- and cell-level registrations: the first row with cells and its first cell
+	// owners for row- and cell-level registrations: the first row with cells and its first cell, or
+	// (second choice) the last row whatever it is - a separator or a row without cells included
 	for _, r := range t.AllRows() {
 		if len(r.cells) > 0 {
 			w.rowOwn = r
@@ -241,10 +242,21 @@ func VerifC13_render() {
 			break
 		}
 	}
+	if rows := t.AllRows(); len(rows) > 0 && vfChoice("row-owner", 2) == 1 {
+		w.rowOwn = rows[len(rows)-1]
+		if len(w.rowOwn.cells) == 0 {
+			vfTag("cell-less-row-owner")
+		}
+	}
 	if w.rowOwn == nil {
 		w.rowOwn = NewRow()
 		w.rowOwn.Add(NewCell("detached"))
 		w.celOwn = &w.rowOwn.cells[0]
+	}
+	if w.celOwn == nil {
+		detached := NewRow()
+		detached.Add(NewCell("detached"))
+		w.celOwn = &detached.cells[0]
 	}
 	if t.NColumns() < 1 {
 		vfAssume(false)
@@ -347,4 +359,56 @@ func VerifC13_add() {
 		w.fire(vfTableCell, add, &r2.cells[0], vfAny)
 	}
 	w.compare("add-")
+}
+
+// VerifC13_cellcopies: a cell carrying its own render callback is added by value to two rows; each
+// live copy then gets one more callback. Every callback fires exactly once per pass on its own cell.
+func VerifC13_cellcopies() {
+	var log []vfEv
+	t := New()
+	t.AddHeaders("h1", "h2")
+	when := callbackTime(1 + vfChoice("when", 3)) // one of the three render times
+	proto := NewCell("shared")
+	nPre := vfChoice("npre", 3)
+	var pre []*vfRecCB
+	for i := 0; i < nPre; i++ {
+		cb := &vfRecCB{id: 100 + i, log: &log, key: &vfKeyT13{100 + i}}
+		pre = append(pre, cb)
+		vfAssert(t.RegisterPropertyCallback(&proto, CB_AT_RENDER, CB_ON_ITSELF, cb) == nil, "register-ok")
+	}
+	r1, r2 := NewRow(), NewRow()
+	r1.Add(NewCell("a")).Add(proto)
+	r2.Add(NewCell("b")).Add(proto)
+	t.AddRow(r1).AddRow(r2)
+	c1, _ := t.CellAt(CellLocation{Row: 1, Column: 2})
+	c2, _ := t.CellAt(CellLocation{Row: 2, Column: 2})
+	cb1 := &vfRecCB{id: 1, log: &log, key: &vfKeyT13{1}}
+	cb2 := &vfRecCB{id: 2, log: &log, key: &vfKeyT13{2}}
+	order := vfChoice("order", 2)
+	if order == 0 {
+		vfAssert(t.RegisterPropertyCallback(c1, CB_AT_RENDER, CB_ON_CELL, cb1) == nil, "register-ok")
+		vfAssert(t.RegisterPropertyCallback(c2, CB_AT_RENDER, CB_ON_CELL, cb2) == nil, "register-ok")
+	} else {
+		vfAssert(t.RegisterPropertyCallback(c2, CB_AT_RENDER, CB_ON_CELL, cb2) == nil, "register-ok")
+		vfAssert(t.RegisterPropertyCallback(c1, CB_AT_RENDER, CB_ON_CELL, cb1) == nil, "register-ok")
+	}
+	_ = when
+	t.InvokeRenderCallbacks()
+	// expected: on cell (1,2): the pre callbacks then cb1; on cell (2,2): the pre callbacks then cb2
+	var want []vfEv
+	for _, cb := range pre {
+		want = append(want, vfEv{cb.id, c1})
+	}
+	want = append(want, vfEv{1, c1})
+	for _, cb := range pre {
+		want = append(want, vfEv{cb.id, c2})
+	}
+	want = append(want, vfEv{2, c2})
+	vfAssert(len(log) == len(want), "copies-each-callback-once-per-target")
+	if len(log) == len(want) {
+		for i := range log {
+			vfAssert(log[i].id == want[i].id, "copies-callbacks-stay-with-their-cell")
+			vfAssert(log[i].po == want[i].po, "copies-live-object-handed-over")
+		}
+	}
 }
